@@ -48,11 +48,55 @@ def transfer(src: Rec, dst: Rec, own: tuple[str, ...]):
     dst.distinct |= src.distinct
 
 
+SUITE_QUICK = ["test/lib/test_connectors.py", "test/core/test_methods.py"]
+
+
+def suite_shards(tier, seed):
+    """Third workload of C01-C04: the repository's own tests, run with the transaction sanitizer attached to every simulator they create."""
+    import glob
+    import os
+    root = os.environ.get("VERIF_REPO") or "/repo"
+    if not os.path.isdir(os.path.join(root, "test")):
+        root = "/repo"
+    files = SUITE_QUICK if tier == "quick" else sorted(os.path.relpath(f, root) for f in glob.glob(os.path.join(root, "test", "**", "test_*.py"), recursive=True))
+    return [{"seed": seed, "suite": True, "file": f, "root": root} for f in files]
+
+
+def run_suite_shard(spec, rec: Rec, pid: str, own: tuple[str, ...]):
+    import os
+    import shutil
+    import subprocess
+    import tempfile
+    d = tempfile.mkdtemp(prefix="vfsuite_")  # scratch cwd: hypothesis and pytest write their files here, never into the repository
+    out = os.path.join(d, "out.json")
+    verif = os.path.dirname(os.path.dirname(os.path.dirname(os.path.abspath(__file__))))
+    pp = os.pathsep.join(x for x in [os.environ.get("VERIF_REPO", ""), verif] if x)
+    try:
+        subprocess.run(["/venv/bin/python", "-m", "pytest", "-q", "-p", "no:cacheprovider", "-p", "vf.pytest_txsan", os.path.join(spec["root"], spec["file"])],
+                       cwd=d, env=dict(os.environ, PYTHONPATH=pp, VF_SUITE_OUT=out, VF_SUITE_PROP=pid, VERIF_ANCHORS="0"), capture_output=True, text=True, timeout=2400)
+    except subprocess.TimeoutExpired:
+        rec.note(f"repository test file {spec['file']} did not finish under the sanitizer within the time limit (not a verdict)")
+    try:
+        if os.path.exists(out):
+            sub = Rec(pid, rec.shard)
+            with open(out) as f:
+                dd = json.load(f)
+            sub.counters.update(dd["counters"])
+            sub.conds = dd["conds"]
+            sub.violations, sub.viol_total = dd["violations"], dd["viol_total"]
+            transfer(sub, rec, own)
+            rec.count("repository_test_files_run_under_the_sanitizer")
+        else:
+            rec.count("repository_test_files_without_sanitizer_output")
+    finally:
+        shutil.rmtree(d, ignore_errors=True)
+
+
 class GenCheck:
     def __init__(self, pid: str, own: tuple[str, ...], opts: dict, scheds=("eager",), nontrivial_counter: str = "", quick=(96, 150), thorough=(6000, 300),
-                 mode: str = "simulate", library: bool = False, cond: bool = False):
+                 mode: str = "simulate", library: bool = False, cond: bool = False, suite: bool = False):
         self.pid, self.own, self.opts, self.scheds, self.ntc, self.mode = pid, own, opts, scheds, nontrivial_counter, mode
-        self.library, self.cond = library, cond
+        self.library, self.cond, self.suite = library, cond, suite
         self.tiers = {"quick": quick, "thorough": thorough}
 
     def shards(self, tier, seed):
@@ -67,6 +111,8 @@ class GenCheck:
         if self.library:
             nlib = 16 if tier == "quick" else 160
             out += [{"seed": seed, "lib": True, "first": i * 3, "n": 3, "cycles": 250 if tier == "quick" else 600} for i in range(nlib)]
+        if self.suite:
+            out += suite_shards(tier, seed)
         return out
 
     def run_library_shard(self, spec, rec: Rec):
@@ -122,6 +168,8 @@ class GenCheck:
             transfer(sub, rec, self.own)
 
     def run_shard(self, spec, rec: Rec):
+        if spec.get("suite"):
+            return run_suite_shard(spec, rec, self.pid, self.own)
         if spec.get("cond"):
             return self.run_cond_shard(spec, rec)
         if spec.get("lib"):
